@@ -1,5 +1,5 @@
 (* C06 — Nothing expired is accepted; each artifact is judged at its own configured time. *)
-From V Require Import Model.Verify Proofs.Verify.
+From V Require Import Model.Verify Proofs.Verify Proofs.VerifyComplete.
 
 (* An accepted quote implies: at the PCK-chain time no certificate of the chain
    is past notAfter and the leaf / an intermediate or anchor on its validated path
@@ -61,3 +61,22 @@ Proof.
   rewrite Hq in Hq'. inversion Hq'; subst. rewrite Hch in Hch'. inversion Hch'; subst. lia.
 Qed.
 Print Assumptions C06_expired_leaf_rejected.
+
+(* The converse reading: with collateral checking on, a quote is refused as soon
+   as one artefact is past its end at the time-set entry that judges it: the TCB
+   Info or its signer at the TCB-Info time, the QE Identity or its signer at the
+   QE-Identity time, a certificate of the PCK chain at the PCK time and, with
+   revocation checking, a CRL at its own time -- whatever the other entries are. *)
+Theorem C06_out_of_date_rejected : forall w qq o wall ch ext ca c,
+  extract_chain w qq = Ok ch -> cPckExt (chLeaf ch) = Some ext -> extract_ca (chLeaf ch) = Ok ca ->
+  fst (obtain_collateral w (eFmspc ext) ca o) = Ok c -> optGetCollateral o = true ->
+  let now := now_of o wall in
+  ((tiNextUpdate (colTcbInfo c) < tTcbInfo now)%Z \/ (qiNextUpdate (colQeId c) < tQeId now)%Z \/
+   (cNotAfter (colTcbSigner c) < tTcbInfo now)%Z \/ (cNotAfter (colQeSigner c) < tQeId now)%Z \/
+   (cNotAfter (chLeaf ch) < tPck now)%Z \/ (cNotAfter (chInter ch) < tPck now)%Z \/ (cNotAfter (chRoot ch) < tPck now)%Z \/
+   (optCheckRevocations o = true /\
+    ((exists pc, colPckCrl c = Some pc /\ (rlNextUpdate pc < tPckCrl now)%Z) \/
+     (exists rc, colRootCrl c = Some rc /\ (rlNextUpdate rc < tRootCrl now)%Z)))) ->
+  fst (verify w (Some qq) (Some o) wall) <> Ok tt.
+Proof. exact out_of_date_rejected. Qed.
+Print Assumptions C06_out_of_date_rejected.
